@@ -478,6 +478,62 @@ class _StripAddAp(ast.NodeTransformer):
         return node
 
 
+EXT_DOC = {"a": {"b": 1, "n": None}, "l": [1, 2], "s": "x"}
+EXT_TARGETS = ["", "/a/b", "/a/n", "/a/c", "/l/0", "/l/2", "/l/-", "/l/5", "/l/x", "/x/y", "/a/b/c", "/s/0", "/a"]
+
+
+def _extension_by_execution(ctx: Ctx, rr: RuleResult, variant: str, fn: FuncInfo) -> None:
+    """`addne` / `addap` as the documentation words them (rules/rfc6902.py), executed abstractly through
+    JSONPatch([...]).apply(doc) on targets that cover: the root, an existing / a null / a new member, array positions
+    inside, at and past the end, `-`, a non-index token, a missing parent, a scalar parent."""
+    import copy as _copy
+
+    from sa.peval import UNKNOWN
+
+    from . import rfc6902
+    from .model import RAISES
+    from .model import Model
+    from .model import _ConstructorRaises
+
+    for target in EXT_TARGETS:
+        if variant == "addap" and target == "/l/x":
+            continue  # (whether a token that is no index at all "cannot be resolved" is not settled by the documentation)
+        op = {"op": variant, "path": target, "value": {"v": [9]}}
+        try:
+            want: object = rfc6902.apply_patch(EXT_DOC, [op])
+            refused = False
+        except rfc6902.Refused:
+            want, refused = None, True
+        model = Model(ctx, "R15.5")
+        model.whole_bodies = model.auto_construct = model.exact_exceptions = model.heap = True
+        doc = _copy.deepcopy(EXT_DOC)
+        try:
+            patch = model.new("jsonpath.patch.JSONPatch", [_copy.deepcopy(op)])
+        except _ConstructorRaises:
+            rr.bad(fn, fn.node, f"a patch cannot be built from {op}: {model.last_raised}", construct=f"JSONPatch([{variant} {target!r}]) raises")
+            continue
+        got = model.call(patch, "apply", [doc])
+        if got is UNKNOWN:
+            raise AnalysisError(f"R15.5: the result of applying {op} cannot be determined")
+        if got is RAISES:
+            c = model.last_raised or ""
+            if not refused:
+                rr.bad(fn, fn.node, f"applying {op} to {EXT_DOC} raises {c.split('.')[-1]}; as documented the result is {want!r:.120}",
+                       construct=f"{variant} {target!r} raises")
+            elif not ctx.repo.is_subclass(c, "JSONPatchError"):
+                rr.bad(fn, fn.node, f"applying {op} fails with {c}, which is not a patch error", construct=f"{variant} {target!r} raises {c}")
+            else:
+                rr.ok(fn.loc(), f"{variant} {target!r}: {c.split('.')[-1]}")
+            continue
+        if refused:
+            rr.bad(fn, fn.node, f"applying {op} to {EXT_DOC} returns {got!r:.120}; as documented (add, except ...) this is an error",
+                   construct=f"{variant} {target!r} returns a document")
+        elif not rfc6902.jeq(got, want):
+            rr.bad(fn, fn.node, f"applying {op} to {EXT_DOC} gives {got!r:.140}; as documented the result is {want!r:.140}", construct=f"{variant} {target!r}")
+        else:
+            rr.ok(fn.loc(), f"{variant} {target!r} = {want!r:.80}")
+
+
 def r15_5(ctx: Ctx) -> RuleResult:
     rr = RuleResult("R15.5", "addne / addap differ from add only as documented", floor=2)
     by_name = {op_name(ctx, c): c for c in op_classes(ctx)}
@@ -501,16 +557,15 @@ def r15_5(ctx: Ctx) -> RuleResult:
         node = st.visit(node)
         ast.fix_missing_locations(node)
         got = twins.normalise(node)
-        if st.count != 1:
-            rr.bad(fn, fn.node, f"`{variant}` must differ from `add` in exactly one place: {what}; "
-                   f"found {st.count} such places", construct=f"{variant}: {st.count} documented deltas")
-            continue
-        if twins.equal(base, got):
+        if st.count == 1 and twins.equal(base, got):
             rr.ok(fn.loc(), f"{variant}.apply == add.apply except: {what}")
-        else:
-            da, db = twins.first_diff(base, got)
-            rr.bad(fn, fn.node, f"`{variant}` differs from `add` beyond its documented difference: add has "
-                   f"`{da}` where {variant} has `{db}`", construct=f"add: {da} | {variant}: {db}")
+            continue
+        # not written as `add` with the one documented change in the place this rule knows: what the operation does is
+        # then found by executing it (a failure to follow the execution fails the run)
+        before = len(rr.findings)
+        _extension_by_execution(ctx, rr, variant, fn)
+        if len(rr.findings) == before:
+            rr.note(f"{variant}.apply is not textually `add` with one change ({st.count} recognised places); decided by execution on {len(EXT_TARGETS)} targets")
     return rr
 
 
